@@ -279,6 +279,8 @@ def run(ctx) -> None:
     ctx.rule(rule_isk)
     ctx.rule(rule_wire)
     ctx.rule(rule_registry)
+    from ..engines import attrproto
+    ctx.rule(lambda c: attrproto.check(c, "C03.ca-attribute", "ca", 4, 2))
     ctx.chk.assumptions = ["PublicKeyRsa/Ecc.export and coordinate_size are decided in C08", "AHAB/HAB SRK table constructions are decided in C06/C07",
                            "not decided: hash values, input-encoding independence at value level (extract_public_key)"]
 
